@@ -339,8 +339,14 @@ func (r *Run) Finish() {
 	}
 	if len(r.machinery) == 0 && r.Replay == "" { // a replay re-executes one case: it is not a run of the check
 		b, _ := json.MarshalIndent(ev, "", " ")
-		os.MkdirAll(filepath.Join(Root, "evidence"), 0o755)
-		if err := os.WriteFile(filepath.Join(Root, "evidence", r.ID+".json"), append(b, '\n'), 0o644); err != nil {
+		// VERIF_SCRATCH_EVIDENCE (tools/seed*.sh: checks run against a deliberately broken copy of the
+		// library) keeps such runs from overwriting the evidence of the real tree
+		dir := filepath.Join(Root, "evidence")
+		if d := os.Getenv("VERIF_SCRATCH_EVIDENCE"); d != "" {
+			dir = d
+		}
+		os.MkdirAll(dir, 0o755)
+		if err := os.WriteFile(filepath.Join(dir, r.ID+".json"), append(b, '\n'), 0o644); err != nil {
 			fmt.Fprintf(os.Stderr, "vk: cannot write evidence: %v\n", err)
 			os.Exit(2)
 		}
